@@ -613,17 +613,17 @@ theorem mkFvInfo_header (data : Bytes) (blocks : List Block) (fvo : Nat) (rsz : 
   have e4 := rd_lt data (rd data 52 2 + 16) 4
   unfold FvHeaderOk
   refine ⟨h64, rfl, rfl, rfl, rfl, rfl, rfl, rfl, rfl, rfl, hbl, ?_⟩
-  by_cases hx : rd data 52 2 ≠ 0 ∧ rd data 32 8 ≥ 20 ∧ rd data 52 2 < rd data 32 8 - 20
+  by_cases hx : rd data 52 2 ≠ 0 ∧ rd data 32 8 ≥ 20 ∧ rd data 52 2 ≤ rd data 32 8 - 20
   · have hx' : fvHasExt (mkFvInfo data blocks fvo rsz free) := hx
     rw [if_pos hx']
-    have hd : decide (rd data 52 2 ≠ 0 ∧ rd data 32 8 ≥ 20 ∧ rd data 52 2 < rd data 32 8 - 20) = true :=
+    have hd : decide (rd data 52 2 ≠ 0 ∧ rd data 32 8 ≥ 20 ∧ rd data 52 2 ≤ rd data 32 8 - 20) = true :=
       decide_eq_true hx
     simp only [mkFvInfo, fvInfoOf, hd, if_true]
     refine ⟨trivial, trivial, ?_⟩
     rw [align8_eq_up8 _ (by omega)]
   · have hx' : ¬ fvHasExt (mkFvInfo data blocks fvo rsz free) := hx
     rw [if_neg hx']
-    have hd : decide (rd data 52 2 ≠ 0 ∧ rd data 32 8 ≥ 20 ∧ rd data 52 2 < rd data 32 8 - 20) = false :=
+    have hd : decide (rd data 52 2 ≠ 0 ∧ rd data 32 8 ≥ 20 ∧ rd data 52 2 ≤ rd data 32 8 - 20) = false :=
       decide_eq_false hx
     simp only [mkFvInfo, fvInfoOf, hd, Bool.false_eq_true, if_false]
     refine ⟨trivial, trivial, ?_⟩
